@@ -136,7 +136,7 @@ MechDone ==
 
 Finish == /\ phase = "idle" /\ Len(calls) >= 1 /\ phase' = "done" /\ UNCHANGED <<p2, calls, cur, mech>>
 
-Next       == AddP2 \/ New \/ AddP1 \/ SelfCall \/ ChooseRad \/ ChooseK(TRUE) \/ MechStep \/ MechDone \/ Finish
+Next       == AddP2 \/ New \/ AddP1 \/ SelfCall \/ ChooseRad \/ ChooseK(TRUE) \/ MechStep \/ MechDone
 NextExport == AddP2 \/ New \/ AddP1 \/ SelfCall \/ ChooseRad \/ ChooseK(FALSE) \/ Finish
 Spec == Init /\ [][Next]_vars
 
@@ -148,7 +148,7 @@ StateFrozen == [][phase # "p2" => p2' = p2]_vars
 MechRefines == (phase = "mech" /\ mech.i > N1(LastCall)) => Accept(LastCall, ObsOfPairs(LastCall, mech.out))
 
 \* the property-level spec accepts its own reference result, and that result has the stated shape
-RefAccepted == (phase \in {"idle", "mech"} /\ Len(calls) >= 1) =>
+RefAccepted == (phase = "mech" /\ mech.i = 1) =>            \* once per call: the state right after ChooseK
     LET c == LastCall  o == RefObs(c) IN
     /\ Accept(c, o)
     /\ \A i \in 1..N1(c) : Must(c, i) \subseteq May(c, i)
